@@ -87,6 +87,20 @@ let () =
     let outs = hist_run hist_start (List.map ev toks) in
     String.concat " " (List.map (fun l -> if l = [] then "-" else String.concat "," (List.map (fun x -> string_of_int (int_of_n x)) l)) outs))
 
+let status_str = function
+  | Running -> "running" | Finished -> "ok" | DataError -> "data" | Truncated -> "trunc"
+  | OutOfFuel -> "fuel" | FormatError -> "format" | OptionsError -> "options"
+let big_fuel = pos_of_int (1 lsl 40)
+let fmt_res ((st, out), used) = Printf.sprintf "%s %d %s" (status_str st) (int_of_n used) (hex_of_bytes out)
+let () =
+  let b = function "1" -> true | _ -> false in
+  reg "xzdec" (fun a -> match a with [c; d] ->
+      fmt_res ((if b c then xz_decode_concat else xz_decode_single) big_fuel (bytes_of_hex d)) | _ -> "ERR");
+  reg "alonedec" (fun a -> match a with [p; d] -> fmt_res (alone_decode big_fuel (b p) (bytes_of_hex d)) | _ -> "ERR");
+  reg "lzipdec" (fun a -> match a with [c; d] -> fmt_res (lzip_decode big_fuel (b c) (bytes_of_hex d)) | _ -> "ERR");
+  reg "autodec" (fun a -> match a with [c; d] -> fmt_res (auto_decode big_fuel (b c) (bytes_of_hex d)) | _ -> "ERR");
+  reg "lzma2dec" (fun a -> match a with [dict; d] -> fmt_res (lzma2_decode (n_of_int (int_of_string dict)) big_fuel (bytes_of_hex d)) | _ -> "ERR")
+
 (* ---- main loop (keep last) ---- *)
 let () =
   try
